@@ -795,6 +795,23 @@ example : certOK need (exT false) ⟨exTK false, fun _ => [], fun _ => true⟩ =
     fs-read; `remove` (node 3 of `exG`) is never reached in the new thread -/
 example (F : Nat) : ∃ fl', ((Sys.run (Sys.step [32] (.spawn 0)) [.sandbox 1 64])[1]? = some fl') ∧ ¬ Ob exG true 0 fl' 0 3 F 0 :=
   thread_enforced need exG exC (by decide) [32] 0 32 rfl [.sandbox 1 64] 3 F 0 "f1" "remove" (by decide) rfl 32 (by decide) (by decide)
+/-- assert-forwarding helper `need(cap) { janet_sandbox_assert(cap); }` (`assertMd 0`: the word of the activation is the
+    constant argument): cloned per constant it has one postcondition per constant and `need(32); remove(); need(64); stat()`
+    is accepted; as ONE function its postcondition is the join of both calls and `stat` is not covered
+    (certificates computed by tools/gen/sandbox.py `certify`) -/
+def exN (cloned : Bool) : Graph :=
+  if cloned then
+    ⟨9, fun n => #[⟨0, .call 1 32, [1]⟩, ⟨0, .libc "f0" "remove", [2]⟩, ⟨0, .call 2 64, [3]⟩, ⟨0, .libc "f0" "stat", [4]⟩, ⟨0, .ret, []⟩,
+        ⟨1, .assertMd 0, [6]⟩, ⟨1, .ret, []⟩, ⟨2, .assertMd 0, [8]⟩, ⟨2, .ret, []⟩].getD n ⟨0, .nop, []⟩, fun f => #[0, 5, 7].getD f 0, [0]⟩
+  else
+    ⟨7, fun n => #[⟨0, .call 1 32, [1]⟩, ⟨0, .libc "f0" "remove", [2]⟩, ⟨0, .call 1 64, [3]⟩, ⟨0, .libc "f0" "stat", [4]⟩, ⟨0, .ret, []⟩,
+        ⟨1, .assertMd 0, [6]⟩, ⟨1, .ret, []⟩].getD n ⟨0, .nop, []⟩, fun f => #[0, 5].getD f 0, [0]⟩
+example : certOK need (exN true) ⟨fun n => #[[(0, [])], [(0, [32])], [(0, [32])], [(0, [32, 64])], [(0, [32, 64])], [(32, [])], [(32, [32])],
+    [(64, [32])], [(64, [32, 64])]].getD n [], fun f => #[[32, 64], [32], [32, 64]].getD f [], fun _ => true⟩ = true := by decide
+example : certOK need (exN false) ⟨fun n => #[[(0, [])], [(0, [32])], [(0, [32])], [(0, [32])], [(0, [32])], [(32, []), (64, [32])],
+    [(32, [32]), (64, [32, 64])]].getD n [], fun f => #[[32], [32]].getD f [], fun _ => true⟩ = false := by decide
+/-- the name table check accepts a function that occurs once per constant argument (repeated program id) -/
+example : namesAgree ["a", "b", "c", "d"] [1, 1, 3] #["b", "b", "d"] = true ∧ namesAgree ["a", "b", "c", "d"] [1, 1, 3] #["b", "c", "d"] = false := by decide
 example : sandboxOp 0 96 = some 96 ∧ sandboxOp 1 96 = none := by decide
 example : sandboxCfun keywordTable 64 ["fs-write", "net"] = some (64 + 32 + 12) ∧ sandboxCfun keywordTable 0 ["fs", "bogus"] = none ∧
     sandboxCfun keywordTable 1 ["fs"] = none := by decide
